@@ -68,6 +68,7 @@ type vSim struct {
 	maxTrans int
 	plain    bool // no adversarial replies, no unsolicited records, no transient failures
 	allowBad bool // allow foreign / wrong-type / short replies
+	errAt    int  // with alwaysOK: the one request (by index) whose verdict is symbolic after all; -1: none
 	mid      bool // transient failures and unsolicited records also between the ACK and the data, and between data messages
 	recvs    int
 	// sends: the failAt-th Send (0-based; -1 none) fails before anything reaches the kernel
@@ -81,7 +82,7 @@ type vSim struct {
 }
 
 func newSim() *vSim {
-	s := &vSim{buf: make([]byte, 16+64), maxUnsol: vParam("unsol", 1), maxTrans: vParam("trans", 1), allowBad: vParam("bad", 1) != 0, failSendAt: -1, recvErrAt: -1, mid: vParam("mid", 0) != 0}
+	s := &vSim{buf: make([]byte, 16+64), maxUnsol: vParam("unsol", 1), maxTrans: vParam("trans", 1), allowBad: vParam("bad", 1) != 0, failSendAt: -1, recvErrAt: -1, errAt: -1, mid: vParam("mid", 0) != 0}
 	s.nextSeq = vU32("seq0")
 	vAssume(s.nextSeq != 0)
 	return s
@@ -108,7 +109,9 @@ func (s *vSim) Send(msg syscall.NetlinkMessage) (uint32, error) {
 	idx := len(s.reqs)
 	s.reqs = append(s.reqs, rq)
 	if s.plain {
-		if s.alwaysOK {
+		if s.alwaysOK && idx == s.errAt {
+			s.planAck(rq, idx, vErrnoChoice())
+		} else if s.alwaysOK {
 			s.planAck(rq, idx, 0)
 		} else {
 			s.planAck(rq, idx, vErrnoChoice())
@@ -901,6 +904,9 @@ func VH_ClientManyNoWait() {
 	s.alwaysOK = true
 	c := &AuditClient{Netlink: s}
 	n := vParam("count", 40)
+	if vParam("oneerror", 0) != 0 {
+		s.errAt = vChoose("errat", n) // the kernel refuses one of the requests (symbolic errno, may be 0)
+	}
 	for i := 0; i < n; i++ {
 		var err error
 		switch i % 3 {
@@ -932,7 +938,26 @@ func VH_ClientManyNoWait() {
 		anyErr = vOr(anyErr, rq.errno != 0)
 	}
 	if anyErr {
-		return // the run of ACKs ends at the first kernel error (VH_ClientHistory's subject)
+		// the run of ACKs ends at the first kernel error: that call returns it and has consumed the ACKs
+		// up to and including the refused request's, each once; a second call consumes the rest
+		err := c.WaitForPendingACKs()
+		vAssert(err != nil, "C17/wait-swallowed-kernel-error")
+		if err != nil && s.errAt >= 0 {
+			vAssert(errors.Is(err, syscall.Errno(s.reqs[s.errAt].errno)), "C17/wait-returned-wrong-error")
+		}
+		for i, rq := range s.reqs {
+			if s.errAt >= 0 && i <= s.errAt {
+				vAssert(rq.ackTaken == 1, "C17/ack-not-consumed-exactly-once")
+			} else if s.errAt >= 0 {
+				vAssert(rq.ackTaken == 0, "C17/ack-consumed-after-an-error")
+			}
+		}
+		err = c.WaitForPendingACKs()
+		vAssert(err == nil, "C17/wait-returned-error-without-kernel-error")
+		for _, rq := range s.reqs {
+			vAssert(rq.ackTaken == 1, "C17/ack-not-consumed-exactly-once")
+		}
+		return
 	}
 	if b := vParam("burst", 0); b > 0 {
 		// a burst of unsolicited records sits in front of the ACKs
